@@ -1,6 +1,6 @@
 //verif:pkg .
 //verif:use fakes_client
-//verif:bound client side: one call whose request id is an arbitrary integer 1..2^53 (the clients' own counters produce integers), answered by a scripted peer that echoes the id as a JSON number, optionally preceded by an answer carrying a different id; Streamable client with SSE answers, legacy SSE client, stdio client
+//verif:bound client side: one call whose request id is an arbitrary integer 1..2^53 (the clients' own counters produce integers), answered by a scripted peer that echoes the id as a JSON number, optionally preceded by an answer carrying a different id; Streamable client with SSE answers, legacy SSE client, stdio client; StdioClient with two calls in flight (a pending tools/call and each of the six operations, after 0..2 earlier calls)
 //verif:assume fmt's %v of an integral float64 prints plain digits below 10^6 and exponent notation from 10^6 on (shortest 'g' formatting; checked against the real fmt by the native co-execution of every path witness)
 package mcp
 
@@ -138,5 +138,133 @@ func H_C01_stdio_client_id() {
 		res, perr := parseCallToolResult(raw)
 		vAssert("call-gets-its-own-answer", vAnd(perr == nil, c01TextOf(res) == "yours"))
 	}
+	vReach("end")
+}
+
+// ---- StdioClient: two calls in flight ----
+
+type c01Peer2 struct {
+	out     *verifStream
+	heldID  interface{}
+	hasHeld bool
+}
+
+func (p *c01Peer2) Write(b []byte) (int, error) {
+	doc, _ := verifParse(b)
+	obj, _ := verifObj(doc)
+	id, has := obj["id"]
+	if !has {
+		return len(b), nil
+	}
+	method, _ := obj["method"].(string)
+	if method == "tools/call" && !p.hasHeld {
+		// the slow call: answered only after the next request has been answered
+		p.heldID, p.hasHeld = id, true
+		return len(b), nil
+	}
+	var result string
+	switch method {
+	case "tools/list":
+		result = `{"tools":[{"name":"fast","inputSchema":{"type":"object"}}]}`
+	case "prompts/list":
+		result = `{"prompts":[{"name":"fast"}]}`
+	case "prompts/get":
+		result = `{"description":"fast","messages":[]}`
+	case "resources/list":
+		result = `{"resources":[{"uri":"res://fast","name":"fast"}]}`
+	case "resources/read":
+		result = `{"contents":[{"uri":"res://fast","text":"fast"}]}`
+	default:
+		result = `{"content":[{"type":"text","text":"fast"}]}`
+	}
+	line, _ := json.Marshal(map[string]interface{}{"jsonrpc": "2.0", "id": id, "result": json.RawMessage(result)})
+	p.out.push(append(line, '\n'))
+	if p.hasHeld {
+		p.out.push(append(c01Answer(p.heldID, "slow"), '\n'))
+	}
+	return len(b), nil
+}
+func (p *c01Peer2) Close() error { return nil }
+
+// H_C01_stdio_two_in_flight: a slow tools/call is pending on a StdioClient while a second operation (each of the
+// six) is issued and answered; then the slow call is answered. Each caller gets its own answer.
+func H_C01_stdio_two_in_flight() {
+	c, err := NewStdioClient(StdioTransportConfig{ServerParams: StdioServerParameters{Command: "none"}, Timeout: 400 * time.Millisecond},
+		Implementation{Name: "c", Version: "1"})
+	if err != nil {
+		panic(err)
+	}
+	p := &c01Peer2{out: newVerifStream()}
+	t := c.transport
+	t.process = &exec.Cmd{}
+	t.stdin = p
+	t.stdout = p.out
+	t.encoder = json.NewEncoder(p)
+	go t.readLoop()
+	c.initialized.Store(true)
+	// some earlier traffic, so that the request counters are not at their initial values
+	warm := vChoice("earlierCalls", 3)
+	for i := 0; i < warm; i++ {
+		c.ListResources(context.Background(), &ListResourcesRequest{})
+	}
+	op := vChoice("secondOp", 6)
+	slowDone := make(chan struct{})
+	var slowRes *CallToolResult
+	var slowErr error
+	go func() {
+		slowRes, slowErr = c.CallTool(context.Background(), &CallToolRequest{Params: CallToolParams{Name: "slow"}})
+		close(slowDone)
+	}()
+	vQuiesce()
+	vAssume(p.hasHeld)
+	ctx := context.Background()
+	fast := ""
+	var ferr error
+	switch op {
+	case 0:
+		r, e := c.ListTools(ctx, &ListToolsRequest{})
+		ferr = e
+		if e == nil && len(r.Tools) == 1 {
+			fast = r.Tools[0].Name
+		}
+	case 1:
+		r, e := c.CallTool(ctx, &CallToolRequest{Params: CallToolParams{Name: "fast"}})
+		ferr = e
+		fast = c01TextOf(r)
+	case 2:
+		r, e := c.ListPrompts(ctx, &ListPromptsRequest{})
+		ferr = e
+		if e == nil && len(r.Prompts) == 1 {
+			fast = r.Prompts[0].Name
+		}
+	case 3:
+		r, e := c.GetPrompt(ctx, &GetPromptRequest{})
+		ferr = e
+		if e == nil {
+			fast = r.Description
+		}
+	case 4:
+		r, e := c.ListResources(ctx, &ListResourcesRequest{})
+		ferr = e
+		if e == nil && len(r.Resources) == 1 {
+			fast = r.Resources[0].Name
+		}
+	default:
+		r, e := c.ReadResource(ctx, &ReadResourceRequest{})
+		ferr = e
+		if e == nil && len(r.Contents) == 1 {
+			if tc, ok := r.Contents[0].(TextResourceContents); ok {
+				fast = tc.Text
+			}
+		}
+	}
+	vAssert("second-call-gets-its-own-answer", vAnd(ferr == nil, fast == "fast"))
+	select {
+	case <-slowDone:
+	case <-time.After(time.Second):
+	}
+	vAssert("pending-call-gets-its-own-answer", vAnd(slowErr == nil, c01TextOf(slowRes) == "slow"))
+	c.Close()
+	p.out.end()
 	vReach("end")
 }
